@@ -107,6 +107,11 @@ Unresolved ==
     nofnset   |-> [tp |-> ("main" :> <<Set("z", Call("nofn", <<>>)), T(sX)>>), err |-> "unknown"],
     notest    |-> [tp |-> ("main" :> <<If1(Test(LI(1), "notest", <<>>, FALSE), <<T(sX)>>)>>), err |-> "unknown"],
     nomacro   |-> [tp |-> ("main" :> <<Import(LS(NT.t1), "L"), PrintS(MCall("L", "nomac", <<>>))>>) @@ ("t1" :> Lib), err |-> "unknown"],
+    \* ... also when a built-in function has that name: alias.name() asks for a macro of the library, not for the function
+    nomacrofn |-> [tp |-> ("main" :> <<T(<<97>>), Import(LS(NT.t1), "L"), PrintS(MCall("L", "max", <<LI(1), LI(2)>>))>>) @@ ("t1" :> Lib), err |-> "unknown"],
+    nomacrofnlen |-> [tp |-> ("main" :> <<Import(LS(NT.t1), "L"), For1("i", L12, <<PrintS(MCall("L", "length", <<LS(sX)>>))>>)>>) @@ ("t1" :> Lib), err |-> "unknown"],
+    nomacrofnself |-> [tp |-> ("main" :> Lib \o <<T(<<97>>), PrintS(MCall("_self", "max", <<LI(3), LI(4)>>))>>), err |-> "unknown"],
+    nomodulefn |-> [tp |-> ("main" :> <<T(<<97>>), Set("z", MCall("nothing", "max", <<LI(1), LI(2)>>)), T(sX)>>), err |-> "unknown"],
     nomacroself |-> [tp |-> ("main" :> Lib \o <<PrintS(MCall("_self", "nomac", <<>>))>>), err |-> "unknown"],
     nofrom    |-> [tp |-> ("main" :> <<From(LS(NT.t1), <<"nomac">>, <<"nomac">>), PrintS(Call("nomac", <<>>))>>) @@ ("t1" :> Lib), err |-> "unknown"],
     noinclude |-> [tp |-> ("main" :> <<T(<<97>>), Inc(LS(NT.nx))>>), err |-> "notfound"],
